@@ -808,3 +808,42 @@ func init() {
 	externals["(*time.Ticker).Stop"] = extNoop
 	externals["(*time.Ticker).Reset"] = extNoop
 }
+
+// ---- net/url: String() of a URL whose path has symbolic bytes -----------------------
+
+func init() {
+	externals["(*net/url.URL).String"] = func(fr *frame, a []value) value {
+		p := a[0].(*value)
+		if p == nil {
+			panic(targetPanic{"nil *url.URL"})
+		}
+		tp := fr.i.prog.ImportedPackage("net/url").Type("URL").Type().Underlying().(*types.Struct)
+		st := (*p).(structure)
+		get := func(name string) value {
+			for k := 0; k < tp.NumFields(); k++ {
+				if tp.Field(k).Name() == name {
+					return st[k]
+				}
+			}
+			return ""
+		}
+		// scheme://host/path?query#fragment, without escaping (approximate for
+		// bytes that url.String would percent-encode; recorded as a stub)
+		stubHit(fr, "url.URL.String(unescaped)")
+		var parts []value
+		if s := get("Scheme"); strLen(s) > 0 {
+			parts = append(parts, s, ":")
+		}
+		if h := get("Host"); strLen(h) > 0 {
+			parts = append(parts, "//", h)
+		}
+		parts = append(parts, get("Path"))
+		if q := get("RawQuery"); strLen(q) > 0 {
+			parts = append(parts, "?", q)
+		}
+		if f := get("Fragment"); strLen(f) > 0 {
+			parts = append(parts, "#", f)
+		}
+		return concatAll(parts)
+	}
+}
